@@ -83,10 +83,13 @@ func (ch *ConnectionHandler) acceptStream() {
 		stream = streams.NewNamedConnection(stream, stream.RemoteAddr().String())
 		log.Debugf("[Server] New logical connection accepted: %v", stream)
 
-		if err = ch.multiplexToUpstream(stream); err != nil {
-			log.WithError(err).Errorf("Error selecting multichannel stream: %v", err)
-			streams.TryClose(stream)
-		}
+		// One handler per logical connection: an open (or slow) connection must not delay the next one
+		go func(stream net.Conn) {
+			if err := ch.multiplexToUpstream(stream); err != nil {
+				log.WithError(err).Errorf("Error selecting multichannel stream: %v", err)
+				streams.TryClose(stream)
+			}
+		}(stream)
 	}
 }
 
